@@ -274,7 +274,7 @@ def whyF (i : FInput) (o : OutputF) : List String :=
   ((i.recs.filter (fun r => !agreeStrictF i o r)).map (fun r => "fa_views_agree_strict@" ++ describeF i o r)) ++
   ((i.recs.filter (fun r => !truthF i o r)).map (fun r => "fa_truth@" ++ describeF i o r)) ++
   ((i.recs.filter (fun r => !faultReported i o r)).map (fun r => "fa_fault_reported@" ++ describeF i o r)) ++
-  ((o.lists.filter (fun e => !filterLawF i o e)).map (fun e => "fa_filter_law@f=" ++ toString e.1)) ++
+  (if i.recs.all saneListing then (o.lists.filter (fun e => !filterLawF i o e)).map (fun e => "fa_filter_law@f=" ++ toString e.1) else []) ++
   ((o.lists.filter (fun e => !completeF i o e)).map (fun e => "fa_no_partial_listing@f=" ++ toString e.1)) ++
   ((i.recs.filter (fun r => match lookup o.eachInfo r.cid with
       | some b => !infoOk (viewSF o r) b | none => false)).map (fun r =>
@@ -382,7 +382,7 @@ def parseReplyGc (s : String) : Option (Nat × Reply Nat) :=
   | [p, r] => do
     let p ← p.toNat?
     if r == "e" || r == "t" then pure (p, .err) else if r == "a" then pure (p, .auth)
-    else if r.startsWith "o" then do pure (p, .ok (← ((r.drop 1).toString).toNat?))
+    else if r.startsWith "o" || r.startsWith "c" then do pure (p, .ok (← ((r.drop 1).toString).toNat?))
     else none
   | _ => none
 
@@ -410,7 +410,8 @@ def answerGc (pre post : List String) : String :=
         match i.pin with
         | none => "absent"
         | some p => if p.everywhere then "everywhere" else if p.isMeta then "meta" else "allocated") ++
-        (if (replies.splitOn ",").any (fun r => r.endsWith ":t") then " arm=gc-timeout" else "")
+        (if (replies.splitOn ",").any (fun r => r.endsWith ":t") then " arm=gc-timeout" else "") ++
+        (if (replies.splitOn ",").any (fun r => (r.splitOn ":c").length > 1) then " arm=gc-answer-for-other-cid" else "")
       match post with
       | [out] =>
         if out == "panic" then "propfail g_answers " ++ arm else
